@@ -84,23 +84,44 @@ Fixpoint gaps_ok (l : list (bytes * bytes)) : bool :=
     is_filler g && (match l' with [] => true | _ => has_blank g end) && gaps_ok l'
   end.
 
+(** A token with the gap behind it: a token in the strong sense with any gap, or one in the weak
+    sense (a heredoc) whose gap, if not empty, begins with a blank or a tab. *)
+Definition gtoken (p : bytes * bytes) (a : bytes) : Prop :=
+  token false (fst p) a \/ (wtoken false (fst p) a /\ starts_sep (snd p) = true).
+
+Lemma Forall2_token_gtoken l : forall as_,
+  Forall2 (token false) (map fst l) as_ -> Forall2 gtoken l as_.
+Proof.
+  induction l as [|p l IH]; intros as_ HF; cbn [map] in HF; inversion HF; subst; constructor.
+  - left. assumption.
+  - apply IH. assumption.
+Qed.
+
 Lemma run_tokens_gaps l : forall as_ args x,
   gaps_ok l = true ->
-  Forall2 (token false) (map fst l) as_ ->
+  Forall2 gtoken l as_ ->
+  starts_sep x = true ->
   exists sp,
     run false (mkSt args false true Main) (join_gaps l ++ x)
     = run false (mkSt (rev as_ ++ args) false sp Main) x.
 Proof.
-  induction l as [|[t g] l IH]; intros as_ args x Hok HF.
+  induction l as [|[t g] l IH]; intros as_ args x Hok HF Hx.
   - inversion HF; subst. exists true. reflexivity.
-  - cbn [map fst] in HF. inversion HF as [|t' a ts' as' Ht HF']; subst.
+  - inversion HF as [|p' a ts' as' Ht HF']; subst.
     cbn [gaps_ok] in Hok. apply andb_true_iff in Hok as [Hok Hok'].
     apply andb_true_iff in Hok as [Hg Hb].
-    cbn [join_gaps]. rewrite <- !app_assoc. rewrite Ht.
+    cbn [join_gaps]. rewrite <- !app_assoc.
+    assert (Hrun : forall args0,
+      run false (mkSt args0 false true Main) (t ++ g ++ join_gaps l ++ x)
+      = run false (mkSt (a :: args0) false false Main) (g ++ join_gaps l ++ x)).
+    { intros args0. destruct Ht as [Ht|[Ht Hs]]; cbn [fst snd] in *; [apply Ht|].
+      apply Ht. destruct g as [|c g]; [|exact Hs].
+      destruct l; [exact Hx|discriminate]. }
+    rewrite Hrun.
     rewrite run_filler by exact Hg. cbn [orb].
     destruct l as [|p l].
     + inversion HF'; subst. cbn [join_gaps app rev]. exists (has_blank g). reflexivity.
-    + rewrite Hb. destruct (IH as' (a :: args) x Hok' HF') as [sp Hsp].
+    + rewrite Hb. destruct (IH as' (a :: args) x Hok' HF' Hx) as [sp Hsp].
       exists sp. rewrite Hsp. cbn [rev]. rewrite <- app_assoc. reflexivity.
 Qed.
 
@@ -110,23 +131,23 @@ Proof. reflexivity. Qed.
 
 Theorem read_args_tokens_gaps g0 l as_ r :
   is_filler g0 = true -> gaps_ok l = true ->
-  Forall2 (token false) (map fst l) as_ ->
+  Forall2 gtoken l as_ ->
   read_args (g0 ++ join_gaps l ++ NL :: r) = ROk as_ false r.
 Proof.
   intros Hg Hok HF. unfold read_args, init_st.
   rewrite run_filler by exact Hg. cbn [orb].
-  destruct (run_tokens_gaps l as_ [] (NL :: r) Hok HF) as [sp Hsp].
+  destruct (run_tokens_gaps l as_ [] (NL :: r) Hok HF eq_refl) as [sp Hsp].
   rewrite Hsp. rewrite run_main_nl. rewrite app_nil_r, rev_involutive. reflexivity.
 Qed.
 
 Theorem read_args_tokens_gaps_eof g0 l as_ :
   is_filler g0 = true -> gaps_ok l = true ->
-  Forall2 (token false) (map fst l) as_ ->
+  Forall2 gtoken l as_ ->
   read_args (g0 ++ join_gaps l) = ROk as_ true [].
 Proof.
   intros Hg Hok HF. unfold read_args, init_st.
   rewrite run_filler by exact Hg. cbn [orb].
-  destruct (run_tokens_gaps l as_ [] [] Hok HF) as [sp Hsp].
+  destruct (run_tokens_gaps l as_ [] [] Hok HF eq_refl) as [sp Hsp].
   rewrite app_nil_r in Hsp. rewrite Hsp. cbn [run s_mode s_args].
   rewrite app_nil_r, rev_involutive. reflexivity.
 Qed.
@@ -138,6 +159,7 @@ Theorem read_args_words_gaps g0 l r :
   read_args (g0 ++ join_gaps l ++ NL :: r) = ROk (map fst l) false r.
 Proof.
   intros Hg Hok Hw. apply read_args_tokens_gaps; try assumption.
+  apply Forall2_token_gtoken.
   apply Forall2_same. apply Forall_forall. intros w Hin. apply token_word.
   rewrite forallb_forall in Hw. auto.
 Qed.
@@ -226,7 +248,7 @@ Qed.
 
 Lemma tokens_is_command g0 l as_ :
   is_filler g0 = true -> gaps_ok l = true ->
-  Forall2 (token false) (map fst l) as_ ->
+  Forall2 gtoken l as_ ->
   is_command (g0 ++ join_gaps l) as_.
 Proof.
   intros Hg Hok HF. unfold is_command. rewrite <- app_assoc.
@@ -430,6 +452,12 @@ Proof.
   destruct (is_blank x); [apply ss_skip; exact IH|apply subseq_refl].
 Qed.
 
+Lemma subseq_strip_nl l : subseq (strip_nl l) l.
+Proof.
+  destruct l as [|c l]; [constructor|]. cbn [strip_nl].
+  destruct (N.eqb c NL); [apply ss_skip|]; apply subseq_refl.
+Qed.
+
 Lemma subseq_trim l : subseq (trim l) l.
 Proof.
   unfold trim. rewrite <- (rev_involutive l) at 2. apply subseq_rev.
@@ -447,6 +475,13 @@ Definition flat (s : st) : bytes :=
 
 Lemma concat_rev_cons (cur : bytes) rest : concat (rev (cur :: rest)) = concat (rev rest) ++ cur.
 Proof. cbn [rev]. rewrite concat_app. cbn [concat]. rewrite app_nil_r. reflexivity. Qed.
+
+Lemma here_value_subseq base e v : subseq (here_value base e v) (base ++ v).
+Proof.
+  unfold here_value. apply subseq_app; [apply subseq_refl|].
+  eapply subseq_trans; [apply subseq_trim|].
+  eapply subseq_trans; [apply subseq_strip_nl|apply subseq_firstn].
+Qed.
 
 Lemma step_flat s c s' : step false s c = Cont s' -> subseq (flat s') (flat s ++ [c]).
 Proof.
@@ -484,29 +519,30 @@ Proof.
     { intros H; inversion H; subst; cbn [s_mode s_args]. apply subseq_app_r. }
     intros H; inversion H; subst; cbn [s_mode s_args]. rewrite !concat_rev_cons.
     rewrite app_assoc. apply subseq_refl.
-  - destruct (N.eqb c NL).
-    { destruct mk; [discriminate|]. intros H; inversion H; subst; cbn [s_mode s_args].
-      rewrite app_nil_r. apply subseq_app_r. }
+  - destruct (N.eqb c NL) eqn:En.
+    { destruct mk; [discriminate|]. apply N.eqb_eq in En. subst c.
+      intros H; inversion H; subst; cbn [s_mode s_args].
+      rewrite <- app_assoc. apply subseq_refl. }
     destruct (is_marker_char c).
     { intros H; inversion H; subst; cbn [s_mode s_args]. apply subseq_app_r. }
     destruct (is_blank c); [|discriminate].
     intros H; inversion H; subst; cbn [s_mode s_args]. apply subseq_app_r.
-  - destruct (has_suffix (v ++ [c]) e).
-    + destruct args as [|cur rest]; [discriminate|].
+  - destruct (has_suffix v e && (is_blank c || N.eqb c NL)).
+    + destruct args as [|cur rest]; [discriminate|]. destruct (N.eqb c NL); [discriminate|].
       intros H; inversion H; subst; cbn [s_mode s_args tl]. rewrite concat_rev_cons.
-      rewrite <- !app_assoc. apply subseq_app; [apply subseq_refl|].
-      apply subseq_app; [apply subseq_refl|].
-      eapply subseq_trans; [apply subseq_trim|apply subseq_firstn].
+      eapply subseq_trans; [|apply subseq_app_r].
+      apply subseq_app; [apply subseq_refl|]. apply here_value_subseq.
     + intros H; inversion H; subst; cbn [s_mode s_args].
       rewrite <- !app_assoc. apply subseq_refl.
 Qed.
 
-Lemma step_return_flat s c args : step false s c = Return args -> concat args = flat s.
+Lemma step_return_flat s c args :
+  step false s c = Return args -> subseq (concat args) (flat s).
 Proof.
   unfold step, flat. destruct s as [a esc sep m]; cbn [s_mode s_args s_esc s_sep].
   destruct m as [| |base mk|base e v].
   - destruct (N.eqb c NL).
-    { destruct esc; [discriminate|]. intros H; inversion H; reflexivity. }
+    { destruct esc; [discriminate|]. intros H; inversion H. apply subseq_refl. }
     destruct (is_blank c); [discriminate|].
     destruct (negb esc && N.eqb c BSL); [discriminate|].
     destruct (if sep then [] :: a else a); [discriminate|].
@@ -518,8 +554,10 @@ Proof.
   - destruct (N.eqb c NL); [destruct mk; discriminate|].
     destruct (is_marker_char c); [discriminate|].
     destruct (is_blank c); discriminate.
-  - destruct (has_suffix (v ++ [c]) e); [|discriminate].
-    destruct a; discriminate.
+  - destruct (has_suffix v e && (is_blank c || N.eqb c NL)); [|discriminate].
+    destruct a as [|cur rest]; [discriminate|]. destruct (N.eqb c NL); [|discriminate].
+    intros H; injection H as <-. cbn [tl]. rewrite concat_app. cbn [concat]. rewrite app_nil_r.
+    apply subseq_app; [apply subseq_refl|]. apply here_value_subseq.
 Qed.
 
 Lemma run_provenance input : forall s acc args eof rest,
@@ -529,7 +567,13 @@ Lemma run_provenance input : forall s acc args eof rest,
 Proof.
   induction input as [|c input IH]; intros s acc args eof rest Hs H; cbn [run] in H.
   - unfold flat in Hs. destruct (s_mode s); try discriminate.
-    inversion H; subst. exists []. split; [reflexivity|]. rewrite app_nil_r. exact Hs.
+    + inversion H; subst. exists []. split; [reflexivity|]. rewrite app_nil_r. exact Hs.
+    + destruct (has_suffix value eofseq); [|discriminate].
+      destruct (s_args s) as [|cur rest0]; [discriminate|]. inversion H; subst.
+      exists []. split; [reflexivity|]. rewrite app_nil_r.
+      eapply subseq_trans; [|exact Hs]. cbn [tl rev]. rewrite concat_app. cbn [concat].
+      rewrite app_nil_r.
+      apply subseq_app; [apply subseq_refl|]. apply here_value_subseq.
   - destruct (step false s c) as [s'|a| |] eqn:E; try discriminate.
     + destruct (IH s' (acc ++ [c]) args eof rest) as [pre [Hp Hq]].
       * eapply subseq_trans; [apply (step_flat _ _ _ E)|].
@@ -538,7 +582,7 @@ Proof.
       * exists (c :: pre). split; [cbn [app]; f_equal; exact Hp|].
         rewrite <- app_assoc in Hq. exact Hq.
     + inversion H; subst. exists [c]. split; [reflexivity|].
-      rewrite (step_return_flat _ _ _ E).
+      eapply subseq_trans; [apply (step_return_flat _ _ _ E)|].
       eapply subseq_trans; [exact Hs|apply subseq_app_r].
 Qed.
 
@@ -562,13 +606,17 @@ Proof.
   apply in_concat. exists a. split; assumption.
 Qed.
 
-(** * 6. Heredocs: the terminator in terms of the text *)
+(** * 6. Heredocs: the terminator in terms of the text (repair F40) *)
 
-(** No newline of the text is directly followed by the marker. *)
-Fixpoint no_marker_after_nl (M t : bytes) : bool :=
-  match t with
+(** [term_prefix M w]: [w] begins with the marker followed by a blank, a tab or a newline. *)
+Definition term_prefix (M w : bytes) : bool :=
+  has_prefix w M && match skipn (length M) w with c :: _ => is_sepb c | [] => false end.
+
+(** No newline of [w] is directly followed by the marker and a separator byte. *)
+Fixpoint no_term (M w : bytes) : bool :=
+  match w with
   | [] => true
-  | c :: t' => (if N.eqb c NL then negb (has_prefix t' M) else true) && no_marker_after_nl M t'
+  | c :: w' => (if N.eqb c NL then negb (term_prefix M w') else true) && no_term M w'
   end.
 
 Lemma has_suffix_inv l s : has_suffix l s = true -> exists p, l = p ++ s.
@@ -578,71 +626,107 @@ Proof.
   rewrite <- H at 2. symmetry. apply firstn_skipn.
 Qed.
 
-Lemma marker_prefix M : forall t x q,
-  forallb is_marker_char M = true -> t ++ NL :: x = M ++ q -> has_prefix t M = true.
+Lemma sepb_not_marker c : is_sepb c = true -> is_marker_char c = false.
 Proof.
-  induction M as [|m M IH]; intros t x q HM H.
-  - destruct t; reflexivity.
-  - cbn [forallb] in HM. apply andb_true_iff in HM as [Hm HM].
-    destruct t as [|c t]; cbn [app] in H; inversion H; subst.
-    + discriminate.
-    + cbn [has_prefix]. rewrite N.eqb_refl. cbn [andb]. eapply IH; eassumption.
+  unfold is_sepb, is_blank. intros H.
+  apply orb_true_iff in H as [H|H]; [apply orb_true_iff in H as [H|H]|];
+    apply N.eqb_eq in H; subst c; reflexivity.
 Qed.
 
-Lemma marker_no_nl M : forallb is_marker_char M = true -> ~ In NL M.
+Lemma marker_In M c : forallb is_marker_char M = true -> In c M -> is_marker_char c = true.
+Proof. intros HM Hin. rewrite forallb_forall in HM. auto. Qed.
+
+(** If the marker and a separator byte stand in front of [w ++ X], X made of marker bytes, they
+    stand in front of [w]. *)
+Lemma term_prefix_from_eq M : forall w X c r,
+  forallb is_marker_char X = true -> is_sepb c = true ->
+  w ++ X = M ++ c :: r -> term_prefix M w = true.
 Proof.
-  intros HM Hin. rewrite forallb_forall in HM. specialize (HM _ Hin). discriminate.
+  induction M as [|m M IH]; intros w X c r HX Hc H.
+  - cbn [app] in H. destruct w as [|c' w]; cbn [app] in H.
+    + subst X. cbn [forallb] in HX. apply andb_true_iff in HX as [HX _].
+      rewrite (sepb_not_marker _ Hc) in HX. discriminate.
+    + injection H as Hc' _. subst c'. unfold term_prefix. cbn [has_prefix length skipn andb].
+      exact Hc.
+  - destruct w as [|c' w]; cbn [app] in H.
+    + exfalso. assert (Hin : In c X) by (rewrite H; right; apply in_or_app; right; left; reflexivity).
+      pose proof (marker_In X c HX Hin) as Hm. rewrite (sepb_not_marker _ Hc) in Hm. discriminate.
+    + injection H as Hc' H. subst c'.
+      specialize (IH w X c r HX Hc H). unfold term_prefix in *.
+      cbn [has_prefix length skipn]. rewrite N.eqb_refl. cbn [andb]. exact IH.
 Qed.
 
-Lemma no_early_terminator M p : forall t q,
-  forallb is_marker_char M = true -> no_marker_after_nl M t = true -> q <> [] ->
-  t ++ NL :: M <> p ++ NL :: M ++ q.
+Lemma no_term_occurrence M p1 : forall w c r,
+  forallb is_marker_char M = true -> no_term M w = true ->
+  w ++ M = p1 ++ NL :: M ++ c :: r -> is_sepb c = false.
 Proof.
-  induction p as [|x p IH]; intros t q HM Hn Hq H.
-  - cbn [app] in H. destruct t as [|c t]; cbn [app] in H.
-    + injection H as H1. rewrite <- (app_nil_r M) in H1 at 1. apply app_inv_head in H1. congruence.
-    + injection H as Hc H1. subst c. cbn [no_marker_after_nl] in Hn. rewrite N.eqb_refl in Hn.
+  induction p1 as [|x p1 IH]; intros w c r HM Hn H.
+  - cbn [app] in H. destruct w as [|c0 w]; cbn [app] in H.
+    + exfalso. assert (Hin : In NL M) by (rewrite H; left; reflexivity).
+      pose proof (marker_In M NL HM Hin) as Hm. discriminate.
+    + injection H as Hc0 H. subst c0. cbn [no_term] in Hn. rewrite N.eqb_refl in Hn.
       apply andb_true_iff in Hn as [Hn _]. apply negb_true_iff in Hn.
-      rewrite (marker_prefix M t M q HM H1) in Hn. discriminate.
-  - destruct t as [|c t]; cbn [app] in H.
-    + injection H as Hx H2.
-      apply (marker_no_nl M HM). rewrite H2. apply in_or_app. right. left. reflexivity.
-    + injection H as Hc H2.
-      cbn [no_marker_after_nl] in Hn. apply andb_true_iff in Hn as [_ Hn].
-      exact (IH t q HM Hn Hq H2).
+      destruct (is_sepb c) eqn:Hc; [|reflexivity].
+      rewrite (term_prefix_from_eq M w M c r HM Hc H) in Hn. discriminate.
+  - destruct w as [|c0 w]; cbn [app] in H.
+    + exfalso. assert (Hin : In NL M).
+      { rewrite H. right. apply in_or_app. right. left. reflexivity. }
+      pose proof (marker_In M NL HM Hin) as Hm. discriminate.
+    + injection H as _ H. cbn [no_term] in Hn. apply andb_true_iff in Hn as [_ Hn].
+      exact (IH w c r HM Hn H).
 Qed.
 
-Lemma no_marker_first_match M t :
-  forallb is_marker_char M = true -> no_marker_after_nl M t = true ->
-  first_match_at_end (NL :: M) (t ++ NL :: M) = true.
+Lemma no_early_from_occurrences M : forall x p,
+  (forall p1 c r, NL :: p ++ x = p1 ++ NL :: M ++ c :: r -> is_sepb c = false) ->
+  no_early (NL :: M) (NL :: p) x = true.
 Proof.
-  intros HM Hn. unfold first_match_at_end. rewrite has_suffix_app. cbn [andb].
-  apply forallb_forall. intros n Hin. apply in_seq in Hin. apply negb_true_iff.
-  destruct (has_suffix (firstn n (t ++ NL :: M)) (NL :: M)) eqn:E; [|reflexivity].
-  exfalso. apply has_suffix_inv in E as [p Hp].
-  apply (no_early_terminator M p t (skipn n (t ++ NL :: M)) HM Hn).
-  - intros Hs. apply (f_equal (@length byte)) in Hs. rewrite skipn_length in Hs.
-    cbn [length] in Hs. lia.
-  - rewrite <- (firstn_skipn n (t ++ NL :: M)) at 1. rewrite Hp.
+  induction x as [|c x IH]; intros p Hocc; [reflexivity|].
+  cbn [no_early]. apply andb_true_iff. split.
+  - apply negb_true_iff. destruct (has_suffix (NL :: p) (NL :: M)) eqn:E; [|reflexivity].
+    cbn [andb]. apply has_suffix_inv in E as [p1 Hp].
+    apply (Hocc p1 c x). change (NL :: p ++ c :: x) with ((NL :: p) ++ c :: x). rewrite Hp.
     rewrite <- app_assoc. reflexivity.
+  - change (NL :: p ++ [c]) with (NL :: (p ++ [c])). apply IH. intros p1 c1 r H.
+    apply (Hocc p1 c1 r). rewrite <- H. rewrite <- app_assoc. reflexivity.
 Qed.
 
-(** A heredoc argument comes back as the text between the marker lines, trimmed, whenever no
-    newline of the text is directly followed by the marker. *)
+Lemma no_term_no_early M u :
+  forallb is_marker_char M = true -> no_term M (NL :: u) = true ->
+  no_early (NL :: M) [NL] (u ++ M) = true.
+Proof.
+  intros HM Hn. apply (no_early_from_occurrences M (u ++ M) []). intros p1 c r H.
+  apply (no_term_occurrence M p1 (NL :: u) c r HM Hn). exact H.
+Qed.
+
+(** A heredoc argument comes back as the text between the marker lines, trimmed, for EVERY text
+    in which no newline - the one before the text included - is directly followed by the marker
+    and a blank, a tab or a newline. *)
 Theorem token_heredoc_text q k M t :
   good_word (k ++ [EQS; LT]) = true ->
   M <> [] -> forallb is_marker_char M = true ->
-  no_marker_after_nl M t = true ->
-  token q (k ++ [EQS; LT; LT] ++ M ++ NL :: t ++ NL :: M) (k ++ EQS :: trim t).
+  no_term M (NL :: t ++ [NL]) = true ->
+  wtoken q (k ++ [EQS; LT; LT] ++ M ++ NL :: t ++ NL :: M) (k ++ EQS :: trim t).
 Proof.
   intros Hk Hne HM Hn. apply token_heredoc; try assumption.
-  apply no_marker_first_match; assumption.
+  replace (t ++ NL :: M) with ((t ++ [NL]) ++ M) by (rewrite <- app_assoc; reflexivity).
+  apply no_term_no_early; assumption.
 Qed.
 
-(** The clause as the property words it - the text between the marker LINES - is false of the
-    model (and of the code, see DESIGN.md): a line that merely begins with the marker ends the
-    heredoc, the rest of that line is glued to the value and the real marker line is read as
-    the next command. *)
+(** The empty heredoc: the marker line directly behind the opening line. *)
+Theorem token_heredoc_empty q k M :
+  good_word (k ++ [EQS; LT]) = true ->
+  M <> [] -> forallb is_marker_char M = true ->
+  wtoken q (k ++ [EQS; LT; LT] ++ M ++ NL :: M) (k ++ [EQS]).
+Proof.
+  intros Hk Hne HM.
+  pose proof (token_heredoc_gen q k M [] Hk Hne HM) as H. cbn [app] in H.
+  rewrite here_value_empty in H. apply H.
+  - apply (no_term_no_early M [] HM). destruct M; [congruence|reflexivity].
+  - apply (has_suffix_app [] (NL :: M)).
+Qed.
+
+(** ** The same condition line by line *)
+
 Fixpoint lines (s : bytes) : list bytes :=
   match s with
   | [] => [[]]
@@ -654,14 +738,88 @@ Fixpoint lines (s : bytes) : list bytes :=
          end
   end.
 
-Definition heredoc_by_lines : Prop :=
+(** A terminator line: the marker, then nothing or a blank or a tab. *)
+Definition term_line (M l : bytes) : bool :=
+  has_prefix l M && match skipn (length M) l with [] => true | c :: _ => is_blank c end.
+
+Lemma lines_nonempty t : exists l ls, lines t = l :: ls.
+Proof.
+  induction t as [|c t [l [ls IH]]]; cbn [lines]; [eauto|].
+  destruct (N.eqb c NL); [eauto|]. rewrite IH. eauto.
+Qed.
+
+Lemma term_prefix_hd_line M : forall t,
+  forallb is_marker_char M = true ->
+  term_prefix M (t ++ [NL]) = term_line M (hd [] (lines t)).
+Proof.
+  induction M as [|m M IH]; intros t HM.
+  - unfold term_prefix, term_line. cbn [has_prefix length skipn andb].
+    destruct t as [|c t]; [reflexivity|]. cbn [app lines]. unfold is_sepb.
+    destruct (N.eqb c NL) eqn:En.
+    + cbn [hd]. rewrite orb_true_r. destruct (lines t); reflexivity.
+    + rewrite orb_false_r. destruct (lines_nonempty t) as [l [ls E]]. rewrite E. reflexivity.
+  - cbn [forallb] in HM. apply andb_true_iff in HM as [Hm HM].
+    pose proof (marker_not_nl _ Hm) as Hmn.
+    destruct t as [|c t]; cbn [app lines].
+    + unfold term_prefix, term_line. cbn [has_prefix hd]. rewrite Hmn. reflexivity.
+    + destruct (N.eqb c NL) eqn:En.
+      * apply N.eqb_eq in En. subst c. unfold term_prefix, term_line. cbn [has_prefix hd].
+        rewrite Hmn. reflexivity.
+      * destruct (lines_nonempty t) as [l [ls E]]. rewrite E. cbn [hd].
+        specialize (IH t HM). rewrite E in IH. cbn [hd] in IH.
+        unfold term_prefix, term_line in *. cbn [has_prefix length skipn].
+        rewrite <- !andb_assoc. rewrite IH. reflexivity.
+Qed.
+
+Lemma no_term_tl_lines M : forall t,
+  forallb is_marker_char M = true ->
+  no_term M (t ++ [NL]) = forallb (fun l => negb (term_line M l)) (tl (lines t)).
+Proof.
+  intros t HM. induction t as [|c t IH].
+  - cbn [app no_term lines tl forallb]. change (N.eqb NL NL) with true. cbn iota.
+    unfold term_prefix. destruct M; reflexivity.
+  - cbn [app no_term lines]. destruct (N.eqb c NL) eqn:En.
+    + cbn [tl]. rewrite IH. rewrite (term_prefix_hd_line M t HM).
+      destruct (lines_nonempty t) as [l [ls E]]. rewrite E. reflexivity.
+    + cbn [andb]. rewrite IH. destruct (lines_nonempty t) as [l [ls E]]. rewrite E. reflexivity.
+Qed.
+
+Theorem no_term_lines M t :
+  forallb is_marker_char M = true ->
+  no_term M (NL :: t ++ [NL]) = forallb (fun l => negb (term_line M l)) (lines t).
+Proof.
+  intros HM. cbn [no_term]. change (N.eqb NL NL) with true. cbn iota.
+  rewrite (term_prefix_hd_line M t HM), (no_term_tl_lines M t HM).
+  destruct (lines_nonempty t) as [l [ls E]]. rewrite E. reflexivity.
+Qed.
+
+(** The clause in the property's words, now a theorem: the text between the marker lines comes
+    back (trimmed) for every text none of whose lines is the marker followed by nothing, a
+    blank or a tab. *)
+Theorem token_heredoc_lines q k M t :
+  good_word (k ++ [EQS; LT]) = true ->
+  M <> [] -> forallb is_marker_char M = true ->
+  forallb (fun l => negb (term_line M l)) (lines t) = true ->
+  wtoken q (k ++ [EQS; LT; LT] ++ M ++ NL :: t ++ NL :: M) (k ++ EQS :: trim t).
+Proof.
+  intros Hk Hne HM Hl. apply token_heredoc_text; try assumption.
+  rewrite no_term_lines by exact HM. exact Hl.
+Qed.
+
+(** ** Regression witnesses for the scanner before the repair F40 ([run_hd_old]) and their
+       counterparts on the repaired one.  Before: a line that merely begins with the marker ended
+       the heredoc, the rest of that line was glued to the value and the real marker line was read
+       as the next command; an empty heredoc swallowed the commands behind it. *)
+Definition heredoc_by_lines_old : Prop :=
   forall k M t,
     good_word (k ++ [EQS; LT]) = true ->
     M <> [] -> forallb is_marker_char M = true ->
     ~ In M (lines t) ->
-    token false (k ++ [EQS; LT; LT] ++ M ++ NL :: t ++ NL :: M) (k ++ EQS :: trim t).
+    forall args tail,
+      run_hd_old (mkSt args false true Main) ((k ++ [EQS; LT; LT] ++ M ++ NL :: t ++ NL :: M) ++ tail)
+      = run_hd_old (mkSt ((k ++ EQS :: trim t) :: args) false false Main) tail.
 
-Theorem heredoc_by_lines_refuted : ~ heredoc_by_lines.
+Theorem heredoc_by_lines_old_refuted : ~ heredoc_by_lines_old.
 Proof.
   intros H.
   specialize (H [107] [69; 79; 70] [97; 10; 69; 79; 70; 88] eq_refl).
@@ -671,18 +829,32 @@ Proof.
   specialize (H' Hl [] [NL]). vm_compute in H'. discriminate.
 Qed.
 
-(** k=<<EOF NL a NL EOFX NL EOF NL  is read as the commands  [k=aX]  and  [EOF]. *)
-Theorem heredoc_marker_prefix_witness :
-  read_all 3 [107; 61; 60; 60; 69; 79; 70; 10; 97; 10; 69; 79; 70; 88; 10; 69; 79; 70; 10]
+(** k=<<EOF NL a NL EOFX NL EOF NL  was read as the commands  [k=aX]  and  [EOF] ... *)
+Theorem heredoc_marker_prefix_old_witness :
+  read_all_hd_old 3 [107; 61; 60; 60; 69; 79; 70; 10; 97; 10; 69; 79; 70; 88; 10; 69; 79; 70; 10]
   = [ROk [[107; 61; 97; 88]] false []; ROk [[69; 79; 70]] false []; ROk [] true []].
 Proof. vm_compute. reflexivity. Qed.
-
-(** An empty heredoc cannot be written: in  k=<<EOF NL EOF NL next NL  the marker line
-    directly behind the opener is not seen and the following command is swallowed (error at
-    the end of the input). *)
-Theorem heredoc_empty_witness :
-  read_args [107; 61; 60; 60; 69; 79; 70; 10; 69; 79; 70; 10; 110; 101; 120; 116; 10] = RErr.
+(** ... and is now the one command  [k=a NL EOFX]. *)
+Theorem heredoc_marker_prefix_fixed :
+  read_all 3 [107; 61; 60; 60; 69; 79; 70; 10; 97; 10; 69; 79; 70; 88; 10; 69; 79; 70; 10]
+  = [ROk [[107; 61; 97; 10; 69; 79; 70; 88]] false []; ROk [] true []].
 Proof. vm_compute. reflexivity. Qed.
+
+(** k=<<EOF NL EOF NL next NL  was an error at the end of the input ... *)
+Theorem heredoc_empty_old_witness :
+  read_args_hd_old [107; 61; 60; 60; 69; 79; 70; 10; 69; 79; 70; 10; 110; 101; 120; 116; 10] = RErr.
+Proof. vm_compute. reflexivity. Qed.
+(** ... and is now the commands  [k=]  and  [next]. *)
+Theorem heredoc_empty_fixed :
+  read_all 3 [107; 61; 60; 60; 69; 79; 70; 10; 69; 79; 70; 10; 110; 101; 120; 116; 10]
+  = [ROk [[107; 61]] false []; ROk [[110; 101; 120; 116]] false []; ROk [] true []].
+Proof. vm_compute. reflexivity. Qed.
+
+(** A heredoc is a token only in the weak sense: behind the marker the text goes on unless a
+    blank, a tab, a newline or the end of the input follows. *)
+Theorem heredoc_not_strong_token :
+  ~ token false [107; 61; 60; 60; 69; 10; 97; 10; 69] [107; 61; 97].
+Proof. intros H. specialize (H [] [88; 10]). vm_compute in H. discriminate. Qed.
 
 (** Inside a double-quoted section a backslash is never delivered: quoting that escapes the
     backslash INSIDE the quotes loses it (which is why the reference quoting function emits it
